@@ -11,9 +11,11 @@
 
 mod exact;
 mod hist;
+mod ingest;
 mod minmax;
 mod moments;
 mod pairs;
+mod par;
 mod quantile;
 mod record;
 mod report;
@@ -157,6 +159,31 @@ fn main() {
             let n: usize = m.get("n").and_then(|s| s.parse().ok()).unwrap_or(1000);
             let len: usize = m.get("len").and_then(|s| s.parse().ok()).unwrap_or(10);
             record::record_histogram(&m["trace"], seed, n, len, &mut r);
+            r
+        }
+        ("replay", Some("ingest")) => {
+            let vals = read_emitted(&m["input"]);
+            vals.par_iter()
+                .fold(Report::default, |mut r, v| {
+                    ingest::process_line(v, &mut r);
+                    r
+                })
+                .reduce(Report::default, Report::merge)
+        }
+        ("record", Some("rayon")) => {
+            let mut r = Report::default();
+            let seed: u64 = m.get("seed").and_then(|s| s.parse().ok()).unwrap_or(1);
+            let reps: usize = m.get("reps").and_then(|s| s.parse().ok()).unwrap_or(2);
+            record::ensure_dir(&m["trace"]);
+            par::record_rayon(&m["trace"], seed, reps, &mut r);
+            r
+        }
+        ("direct", Some("rayon")) => {
+            let mut r = Report::default();
+            let seed: u64 = m.get("seed").and_then(|s| s.parse().ok()).unwrap_or(1);
+            let reps: usize = m.get("reps").and_then(|s| s.parse().ok()).unwrap_or(2);
+            let max_n: usize = m.get("max_n").and_then(|s| s.parse().ok()).unwrap_or(10_000);
+            par::direct_rayon(seed, max_n, reps, &mut r);
             r
         }
         _ => {
